@@ -60,9 +60,53 @@ OS = _OsProxy()
 DATETIME = _DatetimeProxy()
 
 
+class _SimProcess:
+    """What multiprocessing.current_process() returns inside a simulated worker process."""
+
+    def __init__(self, ctx):
+        self._identity = (ctx.pid,)            # unique per simulated process, like the real process counter
+        self.name = f"ForkProcess-{ctx.pid}"
+        self.pid = self.ident = 40000 + ctx.pid
+        self.daemon = False
+        self.exitcode = None
+
+    def is_alive(self):
+        return True
+
+
+_REAL_CURRENT_PROCESS = None
+_REAL_GETPID = _os.getpid
+
+
+def _current_process():
+    sim = kernel.ACTIVE
+    if sim is not None:
+        t = sim.cur()
+        if t is not None and t.ctx.parent is not None:
+            return _SimProcess(t.ctx)
+    return _REAL_CURRENT_PROCESS()
+
+
+def _getpid():
+    sim = kernel.ACTIVE
+    if sim is not None:
+        t = sim.cur()
+        if t is not None and t.ctx.parent is not None:
+            return 40000 + t.ctx.pid
+    return _REAL_GETPID()
+
+
 def install():
+    global _REAL_CURRENT_PROCESS
+    import multiprocessing
     import pyvolutionary.hypertuner as hypertuner
     import pyvolutionary.multitask as multitask
+    if _REAL_CURRENT_PROCESS is None:
+        # simulated worker processes have their own identity (public API only; multiprocessing's internals keep
+        # calling multiprocessing.process.current_process)
+        _REAL_CURRENT_PROCESS = multiprocessing.current_process
+        multiprocessing.current_process = _current_process
+        _os.getpid = _getpid
     hypertuner.os = OS
     multitask.os = OS
     hypertuner.datetime = DATETIME
